@@ -218,8 +218,17 @@ pub fn run(modelrun: &str) {
         let base = verif_sync::next_id();
         let lvl = Arc::new(PriceLevel::new(price));
         let gen_id = verif_sync::next_id();
-        let generator = Arc::new(UuidGenerator::new(Uuid::parse_str(crate::level::NS_MAIN).unwrap()));
+        // `gen0=<n>`: a generator that has already issued n ids (built through its Deserialize impl)
+        let gen0: u64 = flags.split(',').find_map(|x| x.strip_prefix("gen0=")).and_then(|x| x.parse().ok()).unwrap_or(0);
+        let generator: Arc<UuidGenerator> = if gen0 == 0 {
+            Arc::new(UuidGenerator::new(Uuid::parse_str(crate::level::NS_MAIN).unwrap()))
+        } else {
+            Arc::new(serde_json::from_str(&format!("{{\"namespace\":\"{}\",\"counter\":{gen0}}}", crate::level::NS_MAIN)).unwrap())
+        };
         model.call(&format!("NEW {price} {mode}"));
+        if gen0 != 0 {
+            model.call(&format!("GEN {gen0}"));
+        }
         for op in setup.split(';').filter(|s| !s.is_empty()) {
             do_call(&lvl, &generator, op);
             let t: Vec<&str> = op.split(' ').collect();
